@@ -1,2 +1,121 @@
-(* C06 -- placeholder *)
-From MsiModel Require Import Base Package.
+(* C06 -- A created table reopens with the schema it was created with.
+   Codec level: the 16-bit type word (ColumnProofs) and the _Columns/_Validation rows (CatalogProofs) that create_table
+   writes are inverted by the path pkg_open uses, for every column list create_table accepts; what the format cannot
+   represent is refused.  Persistence of the catalog rows themselves is C01 (rows / pool round trip).
+   Statements only; every proof is `exact <lemma>` from theories/. *)
+From MsiModel Require Import Base Sexp Value Expr Category CategoryProofs Column ColumnProofs CodePage Pool Table Container StreamName Propset Summary Query Package CatalogProofs.
+From MsiGen Require Import GenConsts GenCatalog GenColumn.
+Open Scope N_scope.
+
+(* the masks of the type word are the ones in column.rs now *)
+Theorem C06_constants :
+  COL_FIELD_SIZE_MASK = 255 /\
+         COL_LOCALIZABLE_BIT = 512 /\
+         COL_STRING_BIT = 2048 /\
+         COL_NULLABLE_BIT = 4096 /\
+         COL_PRIMARY_KEY_BIT = 8192 /\
+         COL_VALID_BIT = 256 /\
+         COL_NONBINARY_BIT = 1024 /\
+         COLTYPE_INT16_BITS = 2 /\ COLTYPE_INT32_BITS = 4 /\ FROM_BITFIELD_INT_SIZES = [(4, 32); (2, 16); (1, 16)].
+Proof. exact column_constants_pinned. Qed.
+
+(* type, width (<= 255), localizable, nullable, primary-key flags survive the 16-bit word; the word fits the Int16 catalog cell *)
+Theorem C06_type_word :
+  forall c : column,
+         storable_type (c_type c) = true ->
+         exists c' : column,
+           col_with_bits c (col_bits c) = Ok c' /\
+           c_type c' = c_type c /\
+           c_loc c' = c_loc c /\
+           c_null c' = c_null c /\
+           c_pk c' = c_pk c /\
+           c_name c' = c_name c /\
+           c_range c' = c_range c /\
+           c_fk c' = c_fk c /\ c_cat c' = c_cat c /\ c_enum c' = c_enum c /\ (-32768 < col_bits c <= 32767)%Z.
+Proof. exact col_bits_roundtrip. Qed.
+
+(* every category name parses back to the same category *)
+Theorem C06_category_names :
+  forall c : category, exists c' : category, cat_from_str (cat_as_str c) = Some c' /\ cat_ident c' = cat_ident c.
+Proof. exact cat_from_as. Qed.
+
+(* nullable, range, foreign key, category, enumeration survive one _Validation row *)
+Theorem C06_validation_row :
+  forall (tn : str) (c : column),
+         col_storable c ->
+         exists b : column,
+           builder_from_validation (c_name c) (Some (map normalize_value (nth 0 (validation_rows tn [c]) []))) = Ok b /\
+           c_name b = c_name c /\
+           c_null b = c_null c /\ c_range b = c_range c /\ c_fk b = c_fk c /\ c_cat b = c_cat c /\ c_enum b = c_enum c.
+Proof. exact builder_roundtrip. Qed.
+
+(* the whole column list, in order *)
+Theorem C06_columns :
+  forall (tn : str) (cols : list column),
+         Forall col_storable cols ->
+         NoDup (map c_name cols) -> build_columns tn (specs_of cols) (vals_of tn cols) = Ok cols.
+Proof. exact build_columns_roundtrip. Qed.
+
+(* _Columns rows + _Validation rows -> the table open rebuilds is the table created *)
+Theorem C06_catalog :
+  forall (tn : list N) (cols : list column) (long : bool),
+         tn <> [] ->
+         cols <> [] ->
+         Forall col_storable cols ->
+         NoDup (map c_name cols) ->
+         cmap <- read_columns_rows [tn] (stored (columns_rows tn cols)) [];;
+         vals <- read_validation_rows (stored (validation_rows tn cols)) [];; build_tables [tn] cmap vals long [] =
+         Ok [(tn, {| t_name := tn; t_cols := cols; t_long := long |})].
+Proof. exact catalog_roundtrip. Qed.
+
+(* the checks create_table performs imply the hypotheses of the round trip *)
+Theorem C06_accepted_storable :
+  forall (tn : str) (long : bool) (cols : list column),
+         first_dup_or_bad cols [] = true ->
+         rows_fit (Some (validation_table long)) (validation_rows tn cols) = Ok true ->
+         Forall col_storable cols /\ NoDup (map c_name cols).
+Proof. exact accepted_cols_storable. Qed.
+
+(* hence: every accepted definition reopens identically *)
+Theorem C06_accepted_reopens :
+  forall (tn : str) (cols : list column) (long long' : bool),
+         is_valid_tname tn = true ->
+         cols <> [] ->
+         first_dup_or_bad cols [] = true ->
+         rows_fit (Some (validation_table long')) (validation_rows tn cols) = Ok true ->
+         cmap <- read_columns_rows [tn] (stored (columns_rows tn cols)) [];;
+         vals <- read_validation_rows (stored (validation_rows tn cols)) [];; build_tables [tn] cmap vals long [] =
+         Ok [(tn, {| t_name := tn; t_cols := cols; t_long := long |})].
+Proof. exact accepted_table_reopens. Qed.
+
+(* > 32 columns, no key, width > 255, empty / ';' enumeration values: refused, package unchanged *)
+Theorem C06_refused :
+  forall (prof : profile) (k : pkg) (tn : str) (cols : list column),
+         MAX_NUM_TABLE_COLUMNS < nlen cols \/
+         cols = [] \/
+         existsb c_pk cols = false \/
+         (exists c : column, In c cols /\ match c_type c with
+                                          | Str w => 255 < w
+                                          | _ => False
+                                          end) \/
+         (exists (c : column) (v : str), In c cols /\ In v (c_enum c) /\ (v = [] \/ In 59 v)) ->
+         pkg_create_table prof k tn cols = (k, Err).
+Proof. exact create_table_refuses. Qed.
+
+(* why widths above 255 must be refused: the word would decode to Str(44) *)
+Theorem C06_width_300 :
+  rmap c_type
+           (col_with_bits (mk_probe (Str 300) false false false false)
+              (col_bits (mk_probe (Str 300) false false false false))) = Ok (Str 44).
+Proof. exact width_300_not_representable. Qed.
+
+Print Assumptions C06_constants.
+Print Assumptions C06_type_word.
+Print Assumptions C06_category_names.
+Print Assumptions C06_validation_row.
+Print Assumptions C06_columns.
+Print Assumptions C06_catalog.
+Print Assumptions C06_accepted_storable.
+Print Assumptions C06_accepted_reopens.
+Print Assumptions C06_refused.
+Print Assumptions C06_width_300.
